@@ -33,3 +33,15 @@ impl BytesMut {
 // usize::min
 #[verifier::external_body]
 fn vx_min(a: usize, b: usize) -> (r: usize) ensures r == (if a <= b { a } else { b }) { unimplemented!() }
+// `Buf for &[u8]`: reading advances the slice
+trait SliceBuf {
+    spec fn rest(&self) -> Seq<u8>;
+    fn get_u64(&mut self) -> (r: u64)
+        requires old(self).rest().len() >= 8
+        ensures r == be_u64(old(self).rest().subrange(0, 8)), final(self).rest() == old(self).rest().subrange(8, old(self).rest().len() as int);
+}
+impl<'a> SliceBuf for &'a [u8] {
+    spec fn rest(&self) -> Seq<u8> { (*self)@ }
+    #[verifier::external_body]
+    fn get_u64(&mut self) -> (r: u64) { unimplemented!() }
+}
